@@ -646,6 +646,45 @@ func makeIntrinsics() map[string]intrinsic {
 		return Ite(FLt(x, FConst64(0)), FNeg(x), x)
 	}
 
+	// ---------------------------------------------------------- sync.Map
+	// modelled as an association list attached to the receiver's cell, so
+	// that caches built on it are executed (and their writes tracked) rather
+	// than ending the path as unsupported
+	m["(*sync.Map).Load"] = func(in *Interp, _ *frame, _ *ssa.CallCommon, a []Value) Value {
+		mo := in.syncMap(a[0])
+		for _, e := range mo.entries {
+			if in.ex.Branch(in.eqValues(e.k, a[1], nil)) {
+				return TupleV{e.v, True}
+			}
+		}
+		return TupleV{IfaceV{}, False}
+	}
+	m["(*sync.Map).Store"] = func(in *Interp, _ *frame, _ *ssa.CallCommon, a []Value) Value {
+		in.syncMapStore(in.syncMap(a[0]), a[1], a[2])
+		return nil
+	}
+	m["(*sync.Map).LoadOrStore"] = func(in *Interp, _ *frame, _ *ssa.CallCommon, a []Value) Value {
+		mo := in.syncMap(a[0])
+		for _, e := range mo.entries {
+			if in.ex.Branch(in.eqValues(e.k, a[1], nil)) {
+				return TupleV{e.v, True}
+			}
+		}
+		in.syncMapStore(mo, a[1], a[2])
+		return TupleV{a[2], False}
+	}
+	m["(*sync.Map).Delete"] = func(in *Interp, _ *frame, _ *ssa.CallCommon, a []Value) Value {
+		mo := in.syncMap(a[0])
+		for i, e := range mo.entries {
+			if in.ex.Branch(in.eqValues(e.k, a[1], nil)) {
+				ne := append(append([]mapEntry{}, mo.entries[:i]...), mo.entries[i+1:]...)
+				in.setEntries(mo, ne)
+				return nil
+			}
+		}
+		return nil
+	}
+
 	// ---------------------------------------------------------- sort.Slice
 	m["sort.Slice"] = func(in *Interp, _ *frame, _ *ssa.CallCommon, a []Value) Value {
 		iv := a[0].(IfaceV)
@@ -981,4 +1020,34 @@ func intWidthOrFloat(k types.BasicKind) int {
 		return 8
 	}
 	return intWidth(k)
+}
+
+func (in *Interp) syncMap(recv Value) *MapObj {
+	p := recv.(Ptr)
+	if p.c == nil {
+		in.goPanicf("nil pointer dereference (sync.Map)")
+	}
+	c := in.resolve(p)
+	if in.syncMaps == nil {
+		in.syncMaps = map[*Cell]*MapObj{}
+	}
+	mo := in.syncMaps[c]
+	if mo == nil {
+		mo = &MapObj{born: c.born}
+		in.syncMaps[c] = mo
+	}
+	return mo
+}
+
+func (in *Interp) syncMapStore(mo *MapObj, k, v Value) {
+	for i, e := range mo.entries {
+		if in.ex.Branch(in.eqValues(e.k, k, nil)) {
+			ne := append([]mapEntry{}, mo.entries...)
+			ne[i].v = v
+			in.setEntries(mo, ne)
+			return
+		}
+	}
+	ne := append(append([]mapEntry{}, mo.entries...), mapEntry{k, v})
+	in.setEntries(mo, ne)
 }
